@@ -44,7 +44,7 @@ PROBES = ['A-no-address', 'A-all-refused', 'A-second-address-used', 'A-closed-du
           'B-loss-with-pending-calls', 'B-loss-with-deadline', 'B-proxy-explicit',
           'B-proxy-introspected', 'B-proxy-by-name', 'B-two-proxies-same-object',
           'B-introspection-in-flight-at-loss', 'B-errback-issues-call', 'B-reset',
-          'B-client-disconnect', 'B-callback-cancelled', 'B-proxy-dropped', 'B-second-connection',
+          'B-client-disconnect', 'B-callback-cancelled', 'B-all-callbacks-cancelled-then-new-one', 'B-proxy-dropped', 'B-second-connection',
           'B-call-answered-with-error', 'B-bound-method-callback', 'B-callback-registered-twice',
           'B-callback-issues-call']
 COMPONENTS = {
@@ -517,7 +517,36 @@ def part_b(ctx):
             sim.probe('B-proxy-dropped')
             sim.log('op', 'drop-proxy')
 
-    OPS = [(op_call, 5), (op_conn_cb, 2), (op_cancel_conn_cb, 1), (op_proxy, 4), (op_drop_proxy, 0.7)]
+    def op_proxy_cb():
+        # later registrations and cancellations on a proxy that already exists (also: every
+        # callback cancelled, then a new one registered)
+        live = [(i, p) for i, p in enumerate(proxies) if p['ref'] is not None and not p.get('dropped')]
+        if not live:
+            return op_proxy()
+        idx, p = live[ds.choose(len(live))]
+        prox = p['ref']
+        act = [r for r in p['cbs'] if r['active']]
+        what = ds.pickw([('add', 3), ('cancel', 2), ('cancel-all-then-add', 2)])
+        sim.log('op', 'proxy-cb', idx, what)
+
+        def cancel(r):
+            r['active'] = False
+            rig.call(prox.cancelNotifyOnDisconnect, r['holder'].on_lost if 'holder' in r else r['fn'])
+            sim.probe('B-callback-cancelled')
+        if what == 'cancel' and act:
+            cancel(act[ds.choose(len(act))])
+            return
+        if what == 'cancel-all-then-add':
+            for r in act:
+                cancel(r)
+            sim.probe('B-all-callbacks-cancelled-then-new-one')
+        rec = {'hits': [], 'active': True}
+        rec['fn'] = mk_cb(rec, 'proxy%d' % idx)
+        rig.call(prox.notifyOnDisconnect, rec['fn'])
+        p['cbs'].append(rec)
+
+    OPS = [(op_call, 5), (op_conn_cb, 2), (op_cancel_conn_cb, 1), (op_proxy, 4), (op_drop_proxy, 0.7),
+           (op_proxy_cb, 1.5)]
 
     def do_loss(kind=None):
         kind = kind or ds.pick(['daemon-close', 'client-disconnect', 'reset'])
